@@ -8,6 +8,7 @@ TB = ("Lean 4.33 kernel (axioms: propext, Classical.choice, Quot.sound only; aud
       "PURE_PYTHON twins; generators/executors in harness/; CPython semantics modelled.")
 CHECKS = {}
 def add(pid, text, note, technique, design_ref, engine="lean4+correspondence"):
+    assert pid in props, "unknown property id %r" % pid[:40]
     CHECKS[pid] = dict(
         property_id=pid, quick_cmd="./check %s --tier quick" % pid, thorough_cmd="./check %s --tier thorough" % pid,
         evidence_file="evidence/%s.json" % pid, replay_cmd_template="./check %s --replay {path}" % pid, engine=engine,
